@@ -191,3 +191,96 @@ Section TuckerLists.
     | _ => reinsert fx (map snd fixedp) (partial (map fst freep) (map snd freep))
     end.
 End TuckerLists.
+
+(* ------------------------------------------------------------------ tucker(fixed_factors=...), the whole function
+     fixed_factors = sorted(fixed_factors)
+     modes_fixed, factors_fixed = zip-star of [(i, f) for (i, f) in enumerate(factors) if i in fixed_factors]
+     core = multi_mode_dot(core, factors_fixed, modes=modes_fixed)
+     modes, factors = zip-star of [(i, f) for (i, f) in enumerate(factors) if i not in fixed_factors]   -- ValueError if empty
+     (core, new_factors), _ = partial_tucker(tensor, rank, modes, init=(core, list(factors)), ...)
+     factors = list(new_factors); for i, e in enumerate(fixed_factors): factors.insert(e, factors_fixed[i])
+     core = multi_mode_dot(core, factors_fixed, modes=modes_fixed, transpose=True)
+   `pt` stands for partial_tucker on the free modes (an arbitrary function of the absorbed core, the free modes and
+   the free factors; with a zero budget it returns its initialisation). *)
+Section TuckerFull.
+  Context {F : Type} (zero : F) (add mul : F -> F -> F).
+  Definition tucker_fixed (core : tensor F) (fs : list (@matrix F)) (fixed : list nat)
+      (pt : tensor F -> list nat -> list (@matrix F) -> tensor F * list (@matrix F)) : res (tensor F * list (@matrix F)) :=
+    let fx := py_sorted fixed in
+    let fixedp := pick (fun i => memb i fx) 0 fs in
+    let freep := pick (fun i => negb (memb i fx)) 0 fs in
+    match freep with
+    | [] => Err
+    | _ => let c1 := multi_mode_dot zero add mul core (map snd fixedp) (map fst fixedp) in
+           let r := pt c1 (map fst freep) (map snd freep) in
+           match reinsert fx (map snd fixedp) (snd r) with
+           | Err => Err
+           | Ok out => Ok (multi_mode_dot_T zero add mul (fst r) (map snd fixedp) (map fst fixedp), out)
+           end
+    end.
+  (* partial_tucker with n_iter_max = 0 *)
+  Definition pt_zero (c : tensor F) (modes : list nat) (free : list (@matrix F)) := (c, free).
+
+  (* initialize_tucker, branch `(core, factors) = init`, followed by
+       if non_negative is True: factors = [tl.abs(f) for f in factors]; core = tl.abs(core)
+     (non_negative_tucker and non_negative_tucker_hals pass non_negative=True, tucker/partial_tucker do not) *)
+  Definition abs_mat (fabs : F -> F) (A : @matrix F) : @matrix F := map (map fabs) A.
+  Definition abs_tensor (fabs : F -> F) (t : tensor F) : tensor F := mk (shape t) (map fabs (data t)).
+  Definition tucker_init (non_negative : bool) (fabs : F -> F) (core : tensor F) (fs : list (@matrix F))
+    : tensor F * list (@matrix F) :=
+    if non_negative then (abs_tensor fabs core, map (abs_mat fabs) fs) else (core, fs).
+End TuckerFull.
+
+(* ------------------------------------------------------------------ PARAFAC2
+   initialize_decomposition, branch isinstance(init, (tuple, list, Parafac2Tensor, CPTensor)):
+     decomposition = Parafac2Tensor.from_CPTensor(init, parafac2_tensor_ok=True)
+        -- three components: taken as a Parafac2Tensor as it is
+        -- two components (weights, (A, B, C)): Q, R = qr(B); projections = [Q] * A.shape[0]; B = R
+     if decomposition.rank != rank: raise ValueError
+   `qr` is the LAPACK call (an answer tape in the correspondence, a function with the contract Q R = B in the theorems). *)
+Section P2Init.
+  Context {F : Type} (one : F).
+  Inductive p2init :=
+  | FromCP (w : option (list F)) (fs : list (@matrix F))
+  | FromP2 (w : option (list F)) (fs : list (@matrix F)) (P : list (@matrix F)).
+  Record p2st {PT : Type} := mkp2 { p2w : list F; p2f : list (@matrix F); p2P : PT }.
+  Arguments p2st : clear implicits.
+  Definition rank_of (fs : list (@matrix F)) : nat := ncols (hd [] fs).
+  Definition dflt_w (R : nat) (w : option (list F)) : list F := match w with Some v => v | None => ones one R end.
+  Definition p2_init (qr : @matrix F -> @matrix F * @matrix F) (rank : nat) (init : p2init)
+    : res (p2st (list (@matrix F))) :=
+    let chk := fun s : p2st (list (@matrix F)) => if Nat.eqb (rank_of (p2f s)) rank then Ok s else Err in
+    match init with
+    | FromP2 w fs P => chk (mkp2 _ (dflt_w (rank_of fs) w) fs P)
+    | FromCP w [A; B; C] => let QR := qr B in
+                            chk (mkp2 _ (dflt_w (rank_of [A]) w) [A; snd QR; C] (repeat (fst QR) (length A)))
+    | FromCP _ _ => Err
+    end.
+End P2Init.
+Arguments p2st : clear implicits.
+Arguments p2init : clear implicits.
+
+(* the main loop of parafac2: every iteration starts with
+     factors[1] = factors[1] * reshape(weights, (1, -1)); weights = ones(weights.shape)
+   then projections and factors are recomputed (`upd`: SVDs + inner parafac sweeps + line search: an arbitrary
+   function of the absorbed state), optionally normalised, and the stopping rule is consulted. *)
+Section P2Skel.
+  Context {F : Type} (one : F) (mul : F -> F -> F) {PT : Type}.
+  Variable upd : nat -> p2st F PT -> list (@matrix F) * PT.
+  Variable stop : nat -> p2st F PT -> bool.
+  Variable normf : p2st F PT -> p2st F PT.
+  Variable normalize : bool.
+
+  Definition p2_absorb (R : nat) (s : p2st F PT) : p2st F PT :=
+    mkp2 _ (ones one R) (absorb_at mul 1 (p2w s) (p2f s)) (p2P s).
+
+  Fixpoint p2_iterate (R budget it : nat) (s : p2st F PT) : p2st F PT :=
+    match budget with
+    | 0 => s
+    | S b => let s0 := p2_absorb R s in
+             let r := upd it s0 in
+             let s1 := mkp2 _ (p2w s0) (fst r) (snd r) in
+             let s2 := if normalize then normf s1 else s1 in
+             if stop it s2 then s2 else p2_iterate R b (S it) s2
+    end.
+End P2Skel.
